@@ -10,7 +10,7 @@ PROPS = {
                   "ReconcilePodENI (incl. gcCRPodENIs, gcSecondaryENI, gcMemberENI as actions) on one controller-runtime fake client and an ECS simulator; "
                   "oracles: phase-edge recorder on every PodENI write, call-time liveness monitor on every Detach/Delete (record UID and pod instances a successful CNI ADD handed the interface to), a successful CNI ADD must return a record that is Bind for exactly that pod UID, interface/record ledger at every step, end state after settling",
         rule="TestVerifC10ClosedLoop: a case = cluster config (trunk on/off, CRD mode, IP stack, network cards, apparent age of created interfaces, zone of the controller process time.Local = UTC / +8 / -8) + 1..3 pod names with 1..2 interfaces each, a third of them without the pod-eni annotation (served only in CRD mode or on the exclusive-ENI node) "
-             "(elastic / fixed TTL / fixed Never, mixed) + a history of about 20 steps (thorough 30) drawn as a shrinkable list: create/delete(terminating)/sandbox-exit/gone per pod, in a third of the histories also Node object removed / registered again (collector passes are favoured while one is missing), "
+             "(elastic / fixed TTL / fixed Never, mixed) + a history of about 20 steps (thorough 30) drawn as a shrinkable list: create/delete(terminating)/sandbox-exit/gone per pod, in a third of the histories also Node object removed / registered again (collector passes are favoured while one is missing) or the ECS instance of a node released (its pods and Node object vanish; the cloud deletes the attached interfaces created with DeleteOnRelease and detaches the others), "
              "with a drawn node (same name, new UID, same or other node), ReconcilePod(name), ReconcilePodENI(name), gcCR, gcSecondary, gcMember, CNI ADD for the current pod instance through the real daemon-side Remote.Allocate (pkg/eni/remote.go, wait backoff shortened with backoff.OverrideBackoff), each reconcile step with an optional "
              "cloud fault mask (Create/Attach/Detach/Delete per interface slot, Describe, DescribeVSwitch), API fault mask (Get pod/node/record, List, Create, Update, Patch, status Update/Patch, Delete, read-back failure = every Get of the record after its Create in the same step fails and the reconcile context is cancelled; "
              "internal error or conflict) and an optional action executed INSIDE the step's first cloud call (pod leaves / appears, the other controller runs, or both: pod gone + ReconcilePod while ReconcilePodENI is inside AttachNetworkInterface); cloud fault bits are drawn from the calls the step kind can issue; additionally (attach faults are per interface slot, so one interface of a two-interface pod can be attached while its sibling fails and no instance id reaches the status) an optional cloud outage (one call kind + interface slot fails during a window of steps) and up to 4 entries of the form: the n-th Delete/Detach call of the history fails; then faults off and 8 settle rounds of (ReconcilePod, ReconcilePodENI) per name - or, in a quarter of the cases, the pod controller stays down and 6 rounds of (gcCRPodENIs, ReconcilePodENI per name) must remove every record without fixed IP whose pod is gone (phase Initial / Bind / Deleting) together with its interfaces. "
